@@ -46,6 +46,9 @@ func drawSelPlan(rt *rapid.T) *selPlan {
 	p.Proto = rapid.SampledFrom([]string{"tcp", "tcp", "udp"}).Draw(rt, "proto")
 	p.Policy = rapid.SampledFrom([]string{polRoundRobin, polRoundRobin, polRandom}).Draw(rt, "policy")
 	n := rapid.IntRange(1, 5).Draw(rt, "n")
+	if rapid.IntRange(0, 7).Draw(rt, "sizeClass") == 0 {
+		n = rapid.IntRange(13, 24).Draw(rt, "nLarge") // the statement is not limited to the quantifier's 1..5
+	}
 	p.Fakes = n + rapid.IntRange(0, 2).Draw(rt, "decoys")
 	ids := make([]int, p.Fakes)
 	for i := range ids {
@@ -313,11 +316,11 @@ func runSelPlan(p *selPlan) (viol string, st selStats) {
 }
 
 var recSel = ev.New("C19", "round-robin-random",
-	"rapid plan with real goroutines: group built by ClientGroupConfig.AddClientGroup (TCP side via NewStreamDialer/DialStream, UDP side via NewSession; 1..5 members in a drawn order, "+
+	"rapid plan with real goroutines: group built by ClientGroupConfig.AddClientGroup (TCP side via NewStreamDialer/DialStream, UDP side via NewSession; 1..5 (7 in 8 cases) or 13..24 (1 in 8) members in a drawn order, "+
 		"1 in 8 with a client listed twice, 0..2 registered non-member decoys); sequential prefix (0..3n+2 selections), burst of 2..16 goroutines released together with 1..VERIF_C19_PERG selections each, sequential suffix. "+
 		"Oracle round-robin: exists a cycle offset s such that sequential ticket j goes to Members[(s+j) mod n] throughout, and the burst's per-client counts equal those of its consecutive ticket range; "+
 		"random and all policies: every selection is a member. Non-trivial: >=3 members, >=2 goroutines with >= 2n selections in total, round-robin additionally with non-empty prefix and suffix; distinct key = proto|policy|members|G|prefix/burst/suffix sizes").
-	Require("policy/round-robin", "policy/random", "proto/tcp", "proto/udp", "dup-member", "decoys", "burst-not-multiple-of-n", "n>=3")
+	Require("policy/round-robin", "policy/random", "proto/tcp", "proto/udp", "dup-member", "decoys", "burst-not-multiple-of-n", "n>=3", "group>12", "group>12/round-robin", "group>12/random")
 
 // TestRoundRobinRandom decides the round-robin (cyclic, none skipped, also under concurrent
 // selection) and random (members only) clauses of C19.
@@ -340,6 +343,9 @@ func TestRoundRobinRandom(t *testing.T) {
 		labels := []string{"policy/" + p.Policy, "proto/" + p.Proto, fmt.Sprintf("n=%d", n)}
 		if n >= 3 {
 			labels = append(labels, "n>=3")
+		}
+		if n > 12 {
+			labels = append(labels, "group>12", "group>12/"+p.Policy)
 		}
 		if st.dupMembers {
 			labels = append(labels, "dup-member")
